@@ -5,6 +5,7 @@
 -/
 import Masscanned.Model.Smack
 import Masscanned.Gen.HttpSmack
+import Masscanned.Gen.Texts
 namespace Masscanned
 
 inductive HSt where
@@ -69,14 +70,12 @@ def httpParse (ps : HttpSt) (d : Bytes) : Except Site HttpSt :=
 
 def natDec (n : Nat) : Bytes := (toString n).toUTF8.toList
 
-def httpContent : Bytes :=
-  "<html>\n<head><title>401 Authorization Required</title></head>\n<body bgcolor=\"white\">\n<center><h1>401 Authorization Required</h1></center>\n<hr><center>nginx/1.14.2</center>\n</body>\n</html>\n".toUTF8.toList
+/-- the body and the header text come from the running code (Gen/Texts.lean); the Content-Length value is
+    computed from the body, as the code does -/
+def httpContent : Bytes := Gen.httpContent
 
 def httpReplyBytes (env : Env) : Bytes :=
-  "HTTP/1.1 401 Unauthorized\nServer: nginx/1.14.2\nDate: ".toUTF8.toList ++ env.httpDate ++
-  "\nContent-Type: text/html\nContent-Length: ".toUTF8.toList ++ natDec httpContent.length ++
-  "\nConnection: keep-alive\nWWW-Authenticate: Basic realm=\"Access to admin page\"\n\n".toUTF8.toList ++
-  httpContent
+  Gen.httpHead1 ++ env.httpDate ++ Gen.httpHead2 ++ natDec httpContent.length ++ Gen.httpHead3 ++ httpContent
 
 /-- `http::repl` given the parser state to start from; returns the new state and the reply -/
 def httpRepl (env : Env) (ps : HttpSt) (d : Bytes) : Except Site (HttpSt × Option Bytes) :=
